@@ -82,9 +82,18 @@ Definition count_some {A} (l : list (option A)) : nat := length (somes l).
 Fixpoint size (t : itree) : nat :=
   match t with IN _ ch => S (list_sum (map (fun o => match o with Some c => size c | None => 0 end) ch)) end.
 
+(* maximum of a list of naturals (0 for the empty list); the same function as the standard library's [list_max]
+   ([lmax_list_max]) under names that do not shadow OCaml's [max] in the extracted runner *)
+Definition maxn (a b : nat) : nat := if a <=? b then b else a.
+Definition lmax (l : list nat) : nat := fold_right maxn 0 l.
+Lemma maxn_max a b : maxn a b = Nat.max a b.
+Proof. unfold maxn. destruct (Nat.leb_spec a b); lia. Qed.
+Lemma lmax_list_max l : lmax l = list_max l.
+Proof. induction l as [|x l IH]; [reflexivity|]. simpl. rewrite IH. apply maxn_max. Qed.
+
 (* number of edges on the longest downward path *)
 Fixpoint height (t : itree) : nat :=
-  match t with IN _ ch => list_max (map (fun o => match o with Some c => S (height c) | None => 0 end) ch) end.
+  match t with IN _ ch => lmax (map (fun o => match o with Some c => S (height c) | None => 0 end) ch) end.
 
 (* pre-order items: the node, then its children's subtrees by ascending label; a child's counter is the number
    of its siblings with a larger label *)
